@@ -6,6 +6,7 @@ import Mkdb.Driver.Console
 import Mkdb.Driver.Csv
 import Mkdb.Driver.Exec
 import Mkdb.Driver.Db
+import Mkdb.Driver.Sess
 open Mkdb.Driver
 
 def main (args : List String) : IO UInt32 := do
@@ -28,4 +29,6 @@ def main (args : List String) : IO UInt32 := do
   | ["judge", "exec"] => judgeLoop stdin stdout ({} : Exec.J) Exec.judgeLine; return 0
   | ["model", "db"] => modelLoop stdin stdout ({} : Db.St) Db.stepLine; return 0
   | ["judge", "db"] => judgeLoop stdin stdout ({} : Db.J) Db.judgeLine; return 0
+  | ["model", "sess"] => modelLoop stdin stdout ({} : Sess.St) Sess.stepLine; return 0
+  | ["judge", "sess"] => judgeLoop stdin stdout ({} : Sess.J) Sess.judgeLine; return 0
   | _ => IO.eprintln "usage: mkdbdrv model|judge <proto>"; return 2
